@@ -4,7 +4,7 @@
 From Coq Require Import NArith ZArith List Bool String.
 From FitV Require Import Model.Values Model.Bytes Model.Profile Model.Reflect Model.Components Model.Route Model.IO
   Model.Encode Model.Decode Spec.RoundTrip
-  Spec.RouteSpec Proofs.C07Fixpoint Proofs.C07Reencode Proofs.C07DecodeWf Proofs.StreamDenoteDecode Proofs.EncExamples.
+  Spec.RouteSpec Proofs.C07Fixpoint Proofs.C07Reencode Proofs.C07DecodeWf Proofs.C07Integrity Proofs.StreamDenoteDecode Proofs.EncExamples.
 Import ListNotations.
 Local Open Scope N_scope.
 
@@ -69,6 +69,26 @@ Theorem C07_decode_reencode : forall o g rd fuel h file' rd' g' q be,
   (exists r, encode file' be = EOk r) \/ encode file' be = EErr EEString.
 Proof. exact decode_reencode. Qed.
 Print Assumptions C07_decode_reencode.
+(* ... and its output passes CheckIntegrity: the whole re-encode clause in one statement.  For any input Decode
+   accepts (whose FileId.Type still names the container): Encode fails with the UTF-8 error, or writes bytes that
+   CheckIntegrity accepts through any reader (bytes shorter than 2^32: the data-size field is 32 bits) *)
+Theorem C07_reencode_total_integrity : forall o g rd fuel h file' rd' g' q be,
+  Forall (fun b => b < 256) (rd_data rd) ->
+  entry_Decode o g rd fuel = TDone (mk_dres None h (Some file') rd' g' q) ->
+  f_inited file' = Some (file_type file') ->
+  encode file' be = EErr EEString \/
+  exists bs f'', encode file' be = EOk (bs, f'') /\
+    (N.of_nat (List.length bs) < 4294967296 -> forall g2 rd2 fuel2 extra,
+       rd_data rd2 = bs ++ extra -> (List.length (rd_data rd2) + List.length (rd_sched rd2) < fuel2)%nat ->
+       exists r, entry_CheckIntegrity false g2 rd2 fuel2 = TDone r /\ dr_err r = None).
+Proof. exact reencode_total_integrity. Qed.
+Print Assumptions C07_reencode_total_integrity.
+(* the header Decode leaves in the File is one Encode accepts *)
+Theorem C07_decode_file_header : forall o g rd fuel h file' rd' g' q,
+  Forall (fun b => b < 256) (rd_data rd) ->
+  entry_Decode o g rd fuel = TDone (mk_dres None h (Some file') rd' g' q) ->
+  f_header file' = h /\ Proofs.EncodeProofs.wf_header h = true /\ Model.Header.proto_ok (Model.Header.h_proto h) = true /\ Model.Header.h_profile h < 65536.
+Proof. exact decode_file_header. Qed.
 Theorem C07_decode_chained_wf : forall o g rd fuel files rd' g' q,
   Forall (fun b => b < 256) (rd_data rd) ->
   entry_DecodeChained o g rd fuel = TDone (mk_cres None files rd' g' q) ->
